@@ -516,6 +516,7 @@ func Run(sc Scenario, w *World) *Runner {
 		if res.Err == nil && !res.Stranded {
 			// allow followers to learn the commit index and apply
 			time.Sleep(2 * time.Second)
+			rn.waitFSMs(res.Index)
 		}
 	}
 	for _, nd := range c.Nodes {
@@ -555,6 +556,47 @@ func (rn *Runner) ShutdownAll() {
 	}
 	c.bg.Wait()
 	c.W.Log(Ev{K: "m.end"})
+}
+
+// waitFSMs: raft counts an entry as applied once it is queued for the FSM routine; a
+// slow FSM works through that (bounded) queue later. The final FSM states are only
+// comparable once every member that raft reports at the probe index has also been
+// handed the probe; give up when no FSM moved for five election timeouts.
+func (rn *Runner) waitFSMs(probe uint64) {
+	c := rn.C
+	el := time.Duration(rn.Sc.P.ElectionMs) * time.Millisecond
+	last := map[*Node]uint64{}
+	idle, ext := 0, 0
+	for i := 0; i < 3000 && idle < 5; i++ {
+		behind, moved := false, false
+		for _, nd := range c.Nodes {
+			in := nd.Cur()
+			if in == nil || in.r.AppliedIndex() < probe {
+				continue
+			}
+			a := in.fsm.State().Last
+			if a < probe {
+				behind = true
+			}
+			if a > last[nd] {
+				moved = true
+			}
+			last[nd] = a
+		}
+		if !behind {
+			break
+		}
+		if moved {
+			idle = 0
+		} else {
+			idle++
+		}
+		ext++
+		time.Sleep(el)
+	}
+	if ext > 0 {
+		c.W.Log(Ev{K: "m.tail.fsmwait", A: uint64(ext)})
+	}
 }
 
 // waitCatchUp: see Run.
